@@ -239,6 +239,10 @@ def gen_shape(tier):
             for n in (1, 3):
                 yield {"k": "shape", "fmt": fmt, "sheet": sheet, "what": "trail-rows", "pos": "end", "n": n}
                 yield {"k": "shape", "fmt": fmt, "sheet": sheet, "what": "trail-cols", "pos": "end", "n": n}
+    # blank rows between the header and the values of the settings sheet carry no meaning
+    for fmt in ("xls", "xlsx"):
+        for n in (1, 2, 5):
+            yield {"k": "shape", "fmt": fmt, "sheet": "settings", "what": "rows", "pos": "after-header", "n": n}
     # columns without a header inside the data, in the text containers as well (a spacer / remarks column)
     for fmt in ("md", "csv"):
         for sheet in ("survey", "choices"):
@@ -418,7 +422,8 @@ def check_one(case):
                          {"type": "select_one c", "name": "q2", "label": "Q2", "hint": "h"}, {"type": "end group"},
                          {"type": "image", "name": "q3", "label": "Q3"}],
               "choices": [{"list_name": "c", "name": "x", "label": "X", "extra": "1"}, {"list_name": "c", "name": "y"},
-                          {"list_name": "c", "name": "z", "label": "Z", "extra": "3"}]}
+                          {"list_name": "c", "name": "z", "label": "Z", "extra": "3"}],
+              "settings": [{"form_title": "Shape title", "form_id": "shape_id", "version": "3"}]}
         tabs = tables_of(wb)
         ref = {s: [dict(r) for r in rows] for s, rows in wb.items()}
         s, n, what = case["sheet"], case["n"], case["what"]
@@ -446,7 +451,7 @@ def check_one(case):
             at = {"after-header": 1, "middle": 1 + nrows // 2, "before-last": nrows, "end": nrows + 1}[case["pos"]]
             width = len(t[0])
             t[at:at] = [[None] * width for _ in range(n)]
-            if what == "rows":
+            if what == "rows" and s != "settings":
                 ref[s][at - 1:at - 1] = [{} for _ in range(n)]
                 if n > 60:
                     expect_same = False
